@@ -78,6 +78,14 @@ impl Group for C10Sim {
             // commitments refused by the payment-balance validation (outgoing HTLC unapproved / overpaying), every entry point
             c("vh 0 g 9|rv 0|scp 0 9|scp 0 10|scp 0 11|scp1 0 10|vh 0 g 10|vh1 0 g 11|vh 0 g 9|rv 0"),
             c("vh 0 g 10|vh 0 g 0|rv 0|scp 0 11|scp 0 0|cpr 0 g|scp1 0 11|shx 0 b|shx 0 g"),
+            // the real protocol handler (world h): retries of ValidateCommitmentTx2 for the initial and for later
+            // commitments, with the revocation as a separate message and in the old-protocol composite
+            c("world h|HVH 0 g 0|HVH -1 g 0|HVH 0 g 1|HVH 0 g 1|HRV 0|HVH -1 g 1|HVH -1 g 2|HVHO 0 g 2|HVHO -1 g 2|HVHO 0 b 3|HVH 1 g 0|HRV 0|HRV 1"),
+            c("world h|HRV 0|HVH 0 b 0|HVHO 0 g 0|HVHO 0 g 10|HVHO 0 g 9|HVHO -1 g 9|HVH 0 g 11|HVH 0 g 0|HRV 0|HRV 0"),
+            // the handler's composite requests: validation followed, in the same request, by the next point /
+            // the activation (protocol with a separate revoke message) or by the revocation (old protocol)
+            c("hvh 0 g 0|rv 0|hvh 1 g 1|hvh 0 g 1|hvh 0 g 0|hvho 0 g 2|hvho 1 g 0|hvh1o 0 g 10|hvh1 0 g 11|hvh1o 0 g 0"),
+            c("world fresh|hvh 1 g 0|hvh 0 g 0|hvh 0 g 0|hvh1 0 g 1|hvh 0 g 0|rv 0"),
             // activation requested again while a validated commitment waits for its revocation
             c("vh 0 g 1|act|rv 0|vh 0 g 0|act|shr|act"),
             // initial commitment: activation before validation, refused validation, then the regular flow
@@ -99,6 +107,19 @@ impl Group for C10Sim {
         let mut ops = gen_ops(rng, len);
         if rng.chance(1, 4) { ops.insert(0, "world perm".to_string()); }
         else if rng.chance(1, 10) { ops.insert(0, "world nocp".to_string()); }
+        else if rng.chance(1, 6) {
+            // the real protocol handler on a channel it can address: holder-side requests become wire messages
+            ops.insert(0, "world h".to_string());
+            for i in 1..ops.len() {
+                let t: Vec<String> = ops[i].split(' ').map(|x| x.to_string()).collect();
+                if (t[0] == "vh" || t[0] == "vh1" || t[0] == "hvh" || t[0] == "hvh1") && t.len() == 4 {
+                    ops[i] = format!("{} {} {} {}", if rng.chance(1, 3) { "HVHO" } else { "HVH" }, t[1], t[2], t[3]);
+                } else if t[0] == "rv" && rng.chance(2, 3) {
+                    ops[i] = format!("HRV {}", t[1]);
+                }
+            }
+            ops.insert(1, format!("HVH{} 0 g 0", if rng.chance(1, 4) { "O" } else { "" }));
+        }
         else if rng.chance(1, 6) {
             let mut pre = vec!["world fresh".to_string()];
             if rng.chance(1, 3) { pre.push("act".to_string()); }
